@@ -81,7 +81,7 @@ TYPES = r'''
 
 pub enum AutosarDataError { VxOther(u64) }
 pub struct WeakElement { pub opaque: u64 }
-#[derive(Clone, Copy)]
+#[derive(Clone, Copy, PartialEq, Eq, Structural)]
 pub struct Element { pub opaque: u64 }
 pub struct CharacterData { pub opaque: u64 }
 pub enum ElementContent { Element(Element), CharacterData(CharacterData) }
@@ -304,6 +304,35 @@ pub open spec fn entry_ok(x: ValidSubElementInfo, n: ElementRaw, v: u32) -> bool
     &&& x.is_allowed <==> exists|a: usize, b: usize| n.calc_post(x.element_name, v, Ok((a, b)))
 }
 
+// ---- moving a child inside its parent
+// `self.content.iter().position(|item| matches Element(e) && *e == *move_element)`: first position holding this handle
+pub fn vx_position_of(c: &Vec<ElementContent>, h: &Element) -> (r: Option<usize>)
+    ensures match r { Some(i) => i < c@.len() && c@[i as int] == ElementContent::Element(*h) && forall|k: int| 0 <= k < i ==> #[trigger] c@[k] != ElementContent::Element(*h),
+                      None => forall|k: int| 0 <= k < c@.len() ==> #[trigger] c@[k] != ElementContent::Element(*h) }
+{
+    let mut i: usize = 0;
+    while i < c.len()
+        invariant i <= c.len(), forall|k: int| 0 <= k < i ==> #[trigger] c@[k] != ElementContent::Element(*h),
+        decreases c.len() - i
+    {
+        let hit = match &c[i] { ElementContent::Element(e) => *e == *h, ElementContent::CharacterData(_) => false };
+        if hit { return Some(i); }
+        i += 1;
+    }
+    None
+}
+// std: `v[a..=b].rotate_left(1)` moves the first element of the range to its end; `rotate_right(1)` the last one to its start
+#[verifier::external_body]
+pub fn vx_rotate_left1(v: &mut Vec<ElementContent>, a: usize, b: usize)
+    requires a <= b < old(v)@.len()
+    ensures final(v)@ == old(v)@.remove(a as int).insert(b as int, old(v)@[a as int])
+{ unimplemented!() }
+#[verifier::external_body]
+pub fn vx_rotate_right1(v: &mut Vec<ElementContent>, a: usize, b: usize)
+    requires a <= b < old(v)@.len()
+    ensures final(v)@ == old(v)@.remove(b as int).insert(a as int, old(v)@[b as int])
+{ unimplemented!() }
+
 // ---- sort (C14): the node after sorting
 impl Element {
     // the recursive sort of a child goes through the child's own lock: its effect is inside the child, not in this node
@@ -418,6 +447,13 @@ R47 = [
      lambda m: 'let vx_name = elem.element_name(); let (_, elem_indices) = (match self.elemtype.find_sub_element(vx_name, version as u32) { Some(vx_v) => Some(vx_v), None => self.elemtype.find_sub_element(vx_name, u32::MAX) }).unwrap();', 'R39'),
     (r'sorting_vec\.sort_by\(\|\(elem_indices_a, elem_a\), \(elem_indices_b, elem_b\)\| \{\s*elem_indices_a\.cmp\(elem_indices_b\)\.then\(elem_a\.cmp\(elem_b\)\)\s*\}\);', lambda m: 'vx_sort_pairs(&mut sorting_vec);', 'R47'),
     (r'for \(_, elem\) in sorting_vec \{', lambda m: 'let mut vx_s: usize = 0; while vx_s < sorting_vec.len() { let elem = sorting_vec[vx_s].1; vx_s += 1;', 'R47'),
+]
+MOVEPOS = (r'let current_position = self\s*\.content\s*\.iter\(\)\s*\.position\(\|item\| \{\s*if let ElementContent::Element\(elem\) = item \{\s*\*elem == \*move_element\s*\} else \{\s*false\s*\}\s*\}\)\s*\.unwrap\(\);')
+R50 = [
+    (r'AutosarDataError::InvalidPosition\b', lambda m: 'AutosarDataError::VxOther(0)', 'R39'),
+    (MOVEPOS, lambda m: 'let current_position = vx_position_of(&self.content, move_element).unwrap();', 'R50'),
+    (r'self\.content\[current_position\.\.=position\]\.rotate_left\(1\);', lambda m: 'vx_rotate_left1(&mut self.content, current_position, position);', 'R50'),
+    (r'self\.content\[position\.\.=current_position\]\.rotate_right\(1\);', lambda m: 'vx_rotate_right1(&mut self.content, position, current_position);', 'R50'),
 ]
 F_E = 'autosar-data/src/element.rs'
 IMPL_E = r'impl Element'
@@ -537,6 +573,13 @@ pub struct AutosarModel { pub opaque: u64 }
                   ensures=['(r is Err && *final(self) == *old(self)) || exists|a: usize, b: usize| old(self).calc_post(name_of(*other), %s, Ok((a, b))) && a <= position <= b && copied_inner_post(*old(self), *final(self), *other, position, %s, r)' % (V, V),
                            'forall|a: usize, b: usize| old(self).calc_post(name_of(*other), %s, Ok((a, b))) && !(a <= position <= b) ==> r is Err && *final(self) == *old(self)' % V],
                   proofs=[dict(after=r'let \(start_pos, end_pos\) = self\.calc_element_insert_range\(other_elemname, version\)\?;', text=UNIQ % ('other_elemname', 'other_elemname'))]),
+           FnSpec('move_element_position', F, impl=IMPL_R, ret='r', body_sub=R50,
+                  requires=['exists|i: int| 0 <= i < old(self).content@.len() && #[trigger] old(self).content@[i] == ElementContent::Element(*move_element)'],
+                  ensures=['final(self).elemname == old(self).elemname && final(self).elemtype == old(self).elemtype',
+                           'position >= old(self).content@.len() ==> r is Err && final(self).content@ == old(self).content@',
+                           'position < old(self).content@.len() ==> r == Ok::<Element, AutosarDataError>(*move_element) && exists|cur: int| 0 <= cur < old(self).content@.len() && old(self).content@[cur] == ElementContent::Element(*move_element) '
+                           '&& (forall|k: int| 0 <= k < cur ==> #[trigger] old(self).content@[k] != ElementContent::Element(*move_element)) '
+                           '&& final(self).content@ == old(self).content@.remove(cur).insert(position as int, ElementContent::Element(*move_element))']),
            FnSpec('sort', F, impl=IMPL_R, body_sub=R47,
                   requires=['old(self).elemtype.typ < n_dt()', 'old(self).elemtype.def < n_el()', 'old(self).kids_known(version as u32)'],
                   ensures=['final(self).elemname == old(self).elemname && final(self).elemtype == old(self).elemtype',
